@@ -36,6 +36,32 @@ def robust_mode(ctx, binary, quick):
             print("SPEC-DRIFT: " + line[:400])
             ctx.drift.append(line)
     st["accepted"] = acc
+    # the binding, demonstrated on every run: three corruptions of an accepted auto-mode trace with a transfer (a flipped
+    # value, a dropped restoring call, a message moved in front of the switch) must all be rejected
+    rows = vlib.read_ndjson(f)
+    rej_t = set(t for t, _ in rejected)
+    base = None
+    for i, row in enumerate(rows):
+        evs = row["ev"]
+        if row.get("mode") == "auto" and (i + 1) not in rej_t and not row.get("cut"):
+            off = [k for k, e in enumerate(evs) if e["op"] == "Robust" and not e["on"]]
+            if len(off) >= 2 and off[0] + 1 < len(evs) and evs[off[0] + 1].get("kind") == "Frame":
+                base, k = row, off[0]
+                break
+    if base is None:
+        raise vlib.Undecided("no accepted auto-mode trace with a transfer to corrupt (robust-mode binding self-check)")
+    evs = base["ev"]
+    k_on = next(j for j in range(k + 1, len(evs)) if evs[j]["op"] == "Robust" and evs[j]["on"])
+    flipped = [dict(e) for e in evs]
+    flipped[k]["on"] = True
+    dropped = evs[:k_on] + evs[k_on + 1:]
+    moved = evs[:k] + [evs[k + 1], evs[k]] + evs[k + 2:]
+    cf = ctx.path("robust-corrupt.ndjson")
+    vlib.write_ndjson(cf, [{"t": n + 1, "mode": "auto", "ev": c} for n, c in enumerate((flipped, dropped, moved))])
+    _, crej, _ = vlib.validate_traces(ctx, bc.SPECDIR, "RobustModeTrace", "RobustModeTrace.cfg", cf, 3, name="tv-robust-corrupt")
+    if set(t for t, _ in crej) != {1, 2, 3}:
+        raise vlib.Undecided("RobustModeTrace accepts a corrupted trace (rejected only %s of 3): the binding is lost" % sorted(set(t for t, _ in crej)))
+    st["corrupted_traces_rejected"] = 3
     return st
 
 
